@@ -5,6 +5,12 @@ HERE = os.path.dirname(os.path.dirname(os.path.abspath(__file__)))
 ALL = ["C%02d" % i for i in range(1, 21)]
 
 CHECKS = {
+ "C01": dict(category="exploration", technique="Hypothesis-generated block layouts + exhaustive enumeration of all small layouts, judged by a position-list reference model (PosModel)",
+   text="Random staggered layouts (empty/adjacent/overlapping blocks, both strands, shuffled constructor order, 2^31 offsets) and ALL layouts of <=3 blocks over a 7/8-base genome: every relative position, every parent position, every (start,end,strand) sub-interval, pairs (location, query location), and the FeatureInterval wrappers, compared base by base and in 5'->3' order with a list-of-positions model.",
+   note="Nested blocks / ties on start between non-empty blocks are not generated (no canonical order). Known findings F1/F2 (self-overlapping locations) are listed in known_findings.json.", ref="DESIGN.md §5 C01"),
+ "C02": dict(category="exploration", technique="exhaustive enumeration of all pairs of normalised locations over a small genome x strands x flags, plus Hypothesis-generated un-normalised operands with parents; oracle = Python set algebra on covered positions",
+   text="All ordered pairs of non-empty position subsets of a 7-base (quick) / 9-base (thorough) genome x 9 strand pairs x all match_strand/full_span combinations for has_overlap, intersection, contains, minus, union, union_preserve_overlaps, distance (4 types), and all unary operations; random operands with empty/adjacent/overlapping blocks and five parent configurations; every returned location validated structurally.",
+   note="Difference/containment only for operands without self-overlap (as stated). Normalisation (no empty/adjacent blocks) is demanded of optimize_* results only. cgranges branch unreachable (not installed).", ref="DESIGN.md §5 C02"),
  "C15": dict(category="exploration", technique="exhaustive enumeration of the finite domains against typed-in IUPAC tables and Biopython's NCBI codon tables",
    text="Every element of every finite domain (4096 IUPAC triplets x case, all alphabet letters, frames x shifts in [-30,30], all strand pairs/triples, all biotype names) is enumerated and compared with an independent reference; within those domains this is complete.",
    note="Trusts Biopython CodonTable ids 1/11 and Bio.Seq.complement; IUPAC tables typed into checks/c15.py.", ref="DESIGN.md §5 C15"),
